@@ -8,7 +8,7 @@ THEOREMS = ['Diag.tasks_partition', 'Diag.tests_partition', 'Diag.testEvents_spe
 BUDGET = {'quick': 1500, 'thorough': 30000}
 TIME_LIMIT = {'quick': 50, 'thorough': 600}
 RULE = ('0-40 task sections with any TaskStatus, with/without a result key, 0-5 stub results each with scripted verdicts '
-        'and label dicts over a small pool (missing labels, repeated names/values), label selections of length 1-3; '
+        'and label dicts over a small pool (missing labels, repeated names/values, sometimes the reserved keys _result / _test_name), label selections of length 1-3; the three summaries are computed from the same sections in an order that varies; '
         'non-trivial = at least two classes populated or a by-labels table with >= 2 rows; distinct = case hash')
 CORRESPONDS = ('Model/Diag.lean (evalTasks, evalTests, evalByLabels, bool/oracles/nbMissing) vs '
                'valjean.gavroche.diagnostics.stats.TestStatsTasks/TestStatsTests/TestStatsTestsByLabels')
